@@ -416,6 +416,7 @@ def rule_scalar_over(a, b):
     if b.cls == 'Quaternion':
         if a.denom:
             return None
+        check_units_ok('Quaternion', a.unit)
         return Res('Quaternion', 'float', bshape(a.lead, b.lead), (4,), (), None)
     raise Reject('no reciprocal')
 
